@@ -9,8 +9,10 @@
           that test succeeded; every test examines both spin blocks of one and the same candidate;
         - an accepted correction is announced by exactly one LoadWarning that names it;
         - when no candidate passes, LoadError is raised.
-  K2 (bounded) the real `_is_normalized_properly` with the overlap replaced by the identity: one column (alpha or beta,
-      every position, <= 3+3 orbitals) is given a norm error just above / below the threshold.
+  K2 (deductive, pyvc)  `_is_normalized_properly` for blocks of any size (loop invariant over the columns, the quadratic
+      form c^T S c an uninterpreted function of block and column): returns True iff every column of the alpha block and,
+      when given, of the beta block has |c^T S c - 1| <= threshold.  Cross-checked natively with an identity overlap
+      (bounded): one column at a time, every position, <= 3+3 orbitals, error just above / below the threshold.
   K3 (bounded) bounded/vendor_probe.py: true wavefunctions encoded with each vendor's deviations, as Molden (AU and
       Angs) and Molekel, several thresholds, geometry scans in one process, corrupted encodings.
 The correctness of the individual correction formulas (the factors in _fix_obasis_*, _fix_mo_coeffs_*) and of the norm
@@ -212,6 +214,98 @@ def job_cascade(kind="restricted"):
     return verify(T, setup, post, config=cfg, max_paths=4000, quant_feas=True)
 
 
+def job_norm(with_beta=True):
+    """_is_normalized_properly on blocks of any size: True iff every column of every given block has |c^T S c - 1| <= threshold.
+    The quadratic form is an uninterpreted function of (block, column); the overlap is an opaque token."""
+    import numpy as np
+
+    from pyvc.interp import LoopSpec
+    from pyvc.values import Opaque, SReal
+
+    T = f"{M}._is_normalized_properly"  # noqa: N806
+    cfg = Config()
+    I, R = z3.IntSort(), z3.RealSort()
+    nb = z3.Int("nbasis"); na = z3.Int("norba"); nbt = z3.Int("norbb")
+    fa = z3.Function("alpha", I, I, R); fb = z3.Function("beta", I, I, R)
+    # quadratic form c_j^T S c_j of column j of the alpha / beta block w.r.t. the overlap of (obasis, atcoords)
+    Q = {"alpha": z3.Function("normsq.alpha", I, R), "beta": z3.Function("normsq.beta", I, R)}
+    thr = z3.Real("norm_threshold")
+    dev = lambda which, j: z3.If(Q[which](j) - 1 >= 0, Q[which](j) - 1, 1 - Q[which](j))  # noqa: E731
+    olp = Opaque("overlap")
+    cfg.contracts["iodata.overlap.compute_overlap"] = lambda interp, args, kwargs: olp
+    cfg.contracts[f"{M}.compute_overlap"] = lambda interp, args, kwargs: olp
+
+    class HalfDot:
+        def __init__(self, which, col):
+            self.which, self.col = which, col
+
+    def column_of(vec):
+        """Which column of which block is this vector?  Decided on the element term (alpha(i, j) / beta(i, j))."""
+        i = z3.Int("i!col")
+        t = to_z3(vec.get((i,)))
+        if z3.is_app(t) and t.decl().name() in ("alpha", "beta") and t.num_args() == 2 and z3.eq(t.arg(0), i):
+            return t.decl().name(), t.arg(1)
+        return None
+
+    def dot(interp, args, kwargs):
+        a, b = interp.resolve(args[0]), interp.resolve(args[1])
+        if a is olp and isinstance(b, SArr):
+            wc = column_of(b)
+            if wc is None:
+                raise AssertionError("harness: np.dot(olp, v) with v not a column of the orbital blocks")
+            return HalfDot(*wc)
+        if isinstance(a, SArr) and isinstance(b, HalfDot):
+            wc = column_of(a)
+            ok = wc is not None and wc[0] == b.which and interp.ctx.qsolver.entails(wc[1] == b.col) if hasattr(interp.ctx.qsolver, "entails") else (wc is not None and wc[0] == b.which and z3.eq(wc[1], b.col))
+            if not ok:
+                raise AssertionError("harness: quadratic form of two different columns")
+            interp.ctx.event("norm", b.which, b.col)
+            return SReal(Q[b.which](b.col))
+        raise AssertionError("harness: unexpected np.dot")
+
+    cfg.models[np.dot] = dot
+
+    def which_of(frame):
+        wc = column_of(SArr((nb,), lambda ix: frame.locals["orb"].get((ix[0], z3.IntVal(0))), "float"))
+        return wc[0]
+
+    def havoc(interp, frame, k):
+        frame.locals["error_max"] = SReal(interp.ctx.fresh_real("error_max"))
+
+    def inv(interp, frame, k):
+        w = which_of(frame)
+        em = to_z3(frame.locals["error_max"])
+        j = z3.Int("j!inv")
+        n = na if w == "alpha" else nbt
+        done = z3.ForAll([j], z3.Implies(z3.And(j >= 0, j < k), dev(w, j) <= thr))
+        if w == "beta":
+            done = z3.And(done, z3.ForAll([j], z3.Implies(z3.And(j >= 0, j < na), dev("alpha", j) <= thr)))
+        return z3.And(k <= n, em >= 0, (em <= thr) == done)
+
+    cfg.loop_specs[(T, 1)] = LoopSpec("range(orb.shape[1])", havoc, inv, name="loop.columns")
+
+    def setup(ctx, interp):
+        ctx.assume(z3.And(nb >= 0, na >= 0, nbt >= 0, thr >= 0))
+        A = SArr((nb, na), lambda ix: fa(*ix), "float"); A.prov = "arg"
+        B = SArr((nb, nbt), lambda ix: fb(*ix), "float"); B.prov = "arg"
+        return get_target(f"{M}:_is_normalized_properly"), ["OBASIS", "ATCOORDS", A, B if with_beta else None, SReal(thr)], {}, {}
+
+    def post(out, env):
+        ctx = out.ctx
+        ctx.prove(f"{T}::post.returns-normally", out.kind == "return")
+        if out.kind != "return":
+            return
+        j = z3.Int("j!post")
+        allok = z3.ForAll([j], z3.Implies(z3.And(j >= 0, j < na), dev("alpha", j) <= thr))
+        if with_beta:
+            allok = z3.And(allok, z3.ForAll([j], z3.Implies(z3.And(j >= 0, j < nbt), dev("beta", j) <= thr)))
+        tag = "alpha-and-beta" if with_beta else "alpha-only"
+        ctx.prove(f"{T}[{tag}]::post.True-iff-every-orbital-of-every-given-block-has-|c^T-S-c - 1|<=threshold", to_z3(out.value) == allok)
+
+    return verify(T, setup, post, config=cfg, max_paths=200, quant_feas=True)
+
+
+
 # ----------------------------------------------------------------------------------------------------------------
 NORM_SCRIPT = r"""
 import itertools, json, sys
@@ -289,15 +383,17 @@ def vendor_probe(chk):
 
 
 def run(chk):
-    chk.functions += [f"{T} (symbolic execution of the real source; callees under contract; restricted, unrestricted and generalized orbitals of arbitrary size)", f"{M}._is_normalized_properly (bounded)", f"{M}.load_one / iodata.formats.molekel.load_one on vendor-encoded files (bounded)"]
+    chk.functions += [f"{T} (symbolic execution of the real source; callees under contract; restricted, unrestricted and generalized orbitals of arbitrary size)", f"{M}._is_normalized_properly (loop invariant, all block sizes; native cross-check bounded)", f"{M}.load_one / iodata.formats.molekel.load_one on vendor-encoded files (bounded)"]
     chk.trusted += [
         "contracts assumed for the callees of the cascade: _is_normalized_properly is a pure predicate of (basis, alpha, beta, threshold); _fix_obasis_* return a new basis (or None) and do not modify their argument; _fix_mo_coeffs_* return a positive vector of length nbasis or None (their frames are checked in C09/C16)",
         "MolecularOrbitals.coeffsa / coeffsb are views of coeffs[:, :norba] / coeffs[:, norba:] (proved in C12)",
-        "z3 (quantified array equalities)",
+        "z3 (quantified array equalities)", "np.dot(v, np.dot(S, v)) is the quadratic form of the column v (numpy axiom); compute_overlap returns the overlap of the given basis (C06)",
         "bounded/overlap_oracle.py and the vendor encodings typed into bounded/vendor_probe.py from the documentation of the deviations",
     ]
     chk.not_covered += ["the numerical correction factors inside _fix_obasis_* / _fix_mo_coeffs_* and the choice of the right branch when several candidates pass the norm test: bounded probe only", "pure/Cartesian tag handling and section parsing of molden.load_one: bounded probe and C03/C13"]
-    collect(chk, run_jobs([("checks.c05", "job_cascade", {"kind": k}) for k in ("restricted", "unrestricted", "generalized")]))
+    jobs = [("checks.c05", "job_cascade", {"kind": k}) for k in ("restricted", "unrestricted", "generalized")]
+    jobs += [("checks.c05", "job_norm", {"with_beta": wb}) for wb in (True, False)]
+    collect(chk, run_jobs(jobs))
     norm_test(chk)
     vendor_probe(chk)
     chk.samples = [o.as_dict() for o in list(chk.ledger.obligations.values())[:6]]
